@@ -63,7 +63,9 @@ for s in seeds:
     per_seed[s] = rows
     print("seed %d: %d windows" % (s, len(rows)))
 
-FLOOR = {"celt": 1000.0, "celt-short": 3200.0, "lp": 4000.0, "lp-low": 8000.0}
+# floors = 2 x the largest excess seen in the earlier design-phase samples (37 k windows on b5b845fb..71accbd3, other seeds):
+# celt 2224 b/s, celt-short 3393 b/s, lp 17135 b/s, lp-low 16803 b/s
+FLOOR = {"celt": 4500.0, "celt-short": 6800.0, "lp": 34300.0, "lp-low": 33700.0}
 classes = {}
 worst_ref = 0.0
 worst_ref_above = 0.0
@@ -94,7 +96,7 @@ out = {
             "(lp-low: below 16 kb/s per channel, where SILK rate control is known to be loose), celt-short = 2.5/5 ms CELT frames, celt = other CELT-only windows. "
             "cvbr_vs_reference_tol: a window above its target may not be larger than (1+tol) x the frozen reference encoder's output for the same calls.",
     "tree": subprocess.run(["git", "-C", os.environ.get("VERIF_REPO", "/repo"), "rev-parse", "--short", "HEAD"], stdout=subprocess.PIPE).stdout.decode().strip(),
-    "seeds": seeds, "windows": n, "margin": 2.0,
+    "seeds": seeds, "windows": n, "margin": 2.0, "floors_from_design_phase_samples": FLOOR,
     "observed": classes,
     "observed_max_tree_over_reference_minus_1": round(worst_ref, 5),
     "observed_max_tree_over_reference_minus_1_above_target": round(worst_ref_above, 5),
